@@ -661,10 +661,8 @@ class Prefix:
         name: Optional[str] = None,
         symbol: Optional[str] = None,
     ) -> "Prefix":
-        if base != 0 and exponent == 0:
-            return IdentityPrefix
-
-        key = (base, exponent)
+        # any base to the power of zero is the identity prefix
+        key = (0, 0) if base != 0 and exponent == 0 else (base, exponent)
         existing = cls._known.get(key)
         if name and cls._by_name.get(name, existing) is not existing:
             raise ValueError(f"A prefix named {name} is already defined")
